@@ -39,7 +39,27 @@ def run(ctx):
     c13.kmer_binding_rules(dep(ctx, "C01", "C13"))
 
 
+def none_only_at_exhaustion(ctx, rule, fv, who):
+    """every `return None` of next() is dominated by the exhaustion test pos == seq.len(): no other early exit ends
+    the iteration (e.g. `if seq.len() <= k { return None }` silently drops a sequence of exactly k bases)"""
+    rets = [n for n in fv.nodes if n.get("k") == "ret" and fv.enclosing(n, ("closure",)) is None
+            and is_none(fv.term(n.get("e")))]
+    bad = None
+    for r in rets:
+        gs = [(fv.term(g), pol) for g, pol in fv.guards(r)]
+        if not any(exhaustion_verdict(t, pol) is True for t, pol in gs):
+            bad = r
+            break
+    tail = fv.body.get("expr")
+    ctx.check(rule, "%s:none_only_at_exhaustion" % who, bad is None and len(rets) >= 1,
+              "%d `return None` site(s), each under pos == seq.len()" % len(rets),
+              "next() returns None under %s, which is not the exhaustion test: the iteration can end (or never start) "
+              "while bases are still unread" % ([("" if p else "!") + show(t) for t, p in [(fv.term(g), pol) for g, pol in fv.guards(bad)]] if bad else "?"),
+              line_of(bad) if bad else fv.fn["sp"])
+
+
 def generator_rules(ctx, fv, tab):
+    none_only_at_exhaustion(ctx, "C01.S5", fv, "next")
     c = class_term(TABLE)
     # T2: the class read is TABLE[seq[pos]]
     reads = [n for n in fv.nodes if n.get("k") == "index" and fv.term(n) == c]
